@@ -510,6 +510,7 @@ def run(ctx):
     refdir = os.path.join(ctx.tmp_root, "refs")
     os.makedirs(refdir)
     callforms.run_solver_forms(ctx)
+    errorpaths.run_caller_envs(ctx)
     core.run_forked(ctx, case_reference, [{"solve": s, "path": os.path.join(refdir, s + ".npz")} for s in SOLVES], sub="reference")
     seen = {}
     transitions = 0
